@@ -36,6 +36,8 @@ class C16(Spec):
         "Server": [(b"one/1", b"one/1"), (b"two/2", b"two/2"), (b"three/3", b"three/3")],
         "Authorization": [(b"Basic QQ==", b"Basic QQ=="), (b"Bearer x", b"Bearer x"), (b"Basic Qg==", b"Basic Qg==")],
         "Access-Control-Allow-Origin": [(b"*", b"*"), (b"http://a", b"http://a"), (b"http://b", b"http://b")],
+        "Date": [(b"Sun, 06 Nov 1994 08:49:37 GMT", b"Sun, 06 Nov 1994 08:49:37.000000000 UTC"), (b"Thu, 01 Jan 1970 00:00:00 GMT", b"Thu, 01 Jan 1970 00:00:00.000000000 UTC"),
+                 (b"Tue, 29 Feb 2000 00:00:00 GMT", b"Tue, 29 Feb 2000 00:00:00.000000000 UTC")],
     }
 
     def gen(self, rng, tier):
